@@ -2,6 +2,7 @@ import Driver.Srv
 import Driver.Rd
 import Driver.Wr
 import Driver.Pl
+import Driver.Cl
 /-! `driver <suite>`: reads a transcript on stdin, prints the model's `obs` line for every `op` line. -/
 
 partial def loopSrv (h : IO.FS.Stream) (out : IO.FS.Stream) (st : Driver.Srv.St) : IO Unit := do
@@ -31,6 +32,15 @@ partial def loopPl (h : IO.FS.Stream) (out : IO.FS.Stream) (st : Driver.Pl.St) :
   | none => pure ()
   loopPl h out st'
 
+partial def loopCl (h : IO.FS.Stream) (out : IO.FS.Stream) (st : Driver.Cl.St × List Nat) : IO Unit := do
+  let line ← h.getLine
+  if line.isEmpty then return ()
+  let (st', o) := Driver.Cl.handle st line
+  match o with
+  | some l => out.putStrLn l
+  | none => pure ()
+  loopCl h out st'
+
 partial def loopStateless (h : IO.FS.Stream) (out : IO.FS.Stream) (f : String → Option String) : IO Unit := do
   let line ← h.getLine
   if line.isEmpty then return ()
@@ -45,6 +55,7 @@ def main (args : List String) : IO UInt32 := do
   match args with
   | ["srv"] => loopSrv stdin stdout {}; return 0
   | ["reader"] => loopRd stdin stdout {}; return 0
+  | ["client"] => loopCl stdin stdout ({}, []); return 0
   | ["pool"] => loopPl stdin stdout {}; return 0
   | ["writer"] => loopStateless stdin stdout Driver.Wr.handle; return 0
   | _ => IO.eprintln "usage: driver <suite>"; return 2
